@@ -1,4 +1,4 @@
-//! KD10c — SymBuf::clone_to: the copy holds the same symbols (C14)
+//! KD10c — SymBuf::clone_to: the copy holds the same symbols and keeps behaving like the original (C14, C10)
 #![allow(dead_code, unused_imports, unused_variables, unused_mut, clippy::all)]
 use super::*;
 
@@ -22,15 +22,32 @@ fn kd10c_symbuf_clone_to() {
         i += 1;
     }
     let mut dst = [0xEEu8; 3 * LB + 2];
-    let c = unsafe { s.clone_to(dst.as_mut_ptr()) };
+    let mut c = unsafe { s.clone_to(dst.as_mut_ptr()) };
     assert!(c.is_empty() == s.is_empty() && c.should_flush_block() == s.should_flush_block());
-    let mut a = s.iter();
-    let mut b = c.iter();
-    let mut k = 0;
-    while k < LB {
-        assert!(a.next() == b.next());
-        k += 1;
+    {
+        let mut a = s.iter();
+        let mut b = c.iter();
+        let mut k = 0;
+        while k < LB {
+            assert!(a.next() == b.next());
+            k += 1;
+        }
     }
     assert!(dst[3 * LB] == 0xEE);
+    // ... and from then on behaves like the original, whatever the destination memory held before: `push_lit` writes only
+    // the literal byte and relies on the two distance bytes of a free slot being zero
+    if nsym <= LB - 2 {
+        let lit: u8 = kani::any();
+        s.push_lit(lit);
+        c.push_lit(lit);
+        let mut a = s.iter();
+        let mut b = c.iter();
+        let mut k = 0;
+        while k < LB {
+            assert!(a.next() == b.next(), "a symbol tallied through the copy is the symbol tallied through the original");
+            k += 1;
+        }
+    }
     kani::cover!(nsym == LB - 1);
+    kani::cover!(nsym == LB - 2);
 }
